@@ -496,6 +496,26 @@ fn run_conc(t: &[String]) -> String {
     }
   }
   let mut early: Option<bool> = None; // tpause: did the second caller return while the task was parked
+  /// wait until the loader task armed with `task_pause_at` is parked; its probe
+  fn wait_task_parked(e: &mut Env) -> Option<Arc<Probe>> {
+    let t0 = std::time::Instant::now();
+    let tp = loop {
+      if let Some(p) = e.ctl.task_probe.lock().unwrap().clone() {
+        break Some(p);
+      }
+      if t0.elapsed() > wait_dur() {
+        break None;
+      }
+      std::thread::yield_now();
+    };
+    let paused = tp.as_ref().map(|p| p.wait_paused()).unwrap_or(false);
+    if !paused {
+      hung();
+      e.hang += 1;
+    }
+    tp
+  }
+  let mut probe_state: Option<&'static str> = None; // reinv: was the in-flight future already completed
   match t[6].as_str() {
     // herd K M : M callers miss on K during one held load
     "herd" => {
@@ -603,21 +623,7 @@ fn run_conc(t: &[String]) -> String {
       let (k, j) = (num(7), num(8) as usize);
       e.ctl.task_pause_at.store(j, Ordering::SeqCst);
       let a = e.spawn_fetch(k, 0);
-      let t0 = std::time::Instant::now();
-      let tp = loop {
-        if let Some(p) = e.ctl.task_probe.lock().unwrap().clone() {
-          break Some(p);
-        }
-        if t0.elapsed() > wait_dur() {
-          break None;
-        }
-        std::thread::yield_now();
-      };
-      let paused = tp.as_ref().map(|p| p.wait_paused()).unwrap_or(false);
-      if !paused {
-        hung();
-        e.hang += 1;
-      }
+      let tp = wait_task_parked(&mut e);
       let b = e.spawn_fetch(k, 0);
       // B either returns (hit) or reaches its stripe section (joins the pending load)
       let t1 = std::time::Instant::now();
@@ -649,6 +655,54 @@ fn run_conc(t: &[String]) -> String {
       }
       e.quiesce();
     }
+    // reinv K : the loader task is parked right before its marker removal (after the map write).
+    // The harness invalidates K and polls AsyncCache::fetch_with(K) exactly ONCE: the call misses,
+    // finds the marker and joins that load; Pending = the load is not completed yet (callers are
+    // still blocked), Ready = it was completed while still registered as in flight.  Then callers
+    // are released as early as the implementation allows, and invalidate + fetch_with must start
+    // a NEW load.
+    "reinv" => {
+      let k = num(7);
+      let me = install_probe();
+      e.ctl.task_pause_at.store(3, Ordering::SeqCst);
+      let a = e.spawn_fetch(k, 0);
+      let tp = wait_task_parked(&mut e);
+      e.cache.invalidate(&Key(k));
+      let key = Key(k);
+      let ac = e.acache.clone();
+      let mut fut = Box::pin(ac.fetch_with(&key));
+      let waker = futures_util::task::noop_waker();
+      let mut cx = std::task::Context::from_waker(&waker);
+      let first = fut.as_mut().poll(&mut cx);
+      e.ctl.after_call(&me);
+      match first {
+        std::task::Poll::Ready(v) => {
+          probe_state = Some("ready");
+          *e.rets.entry((k, v.id)).or_insert(0) += 1;
+          e.join(k, a); // it was woken: it can return without the task moving
+          e.cache.invalidate(&Key(k));
+          e.call_now(k);
+          if let Some(p) = &tp {
+            p.resume();
+          }
+          e.quiesce();
+        }
+        std::task::Poll::Pending => {
+          probe_state = Some("pending");
+          if let Some(p) = &tp {
+            p.resume();
+          }
+          e.join(k, a);
+          let v = futures_executor::block_on(fut);
+          e.ctl.after_call(&me);
+          *e.rets.entry((k, v.id)).or_insert(0) += 1;
+          e.quiesce();
+          e.cache.invalidate(&Key(k));
+          e.call_now(k);
+          e.quiesce();
+        }
+      }
+    }
     // stress K R T : R rounds x T ungated callers on fresh keys K, K+1, ..; reports rounds with != 1 load
     "stress" => {
       let (k0, r, th) = (num(7), num(8), num(9));
@@ -672,9 +726,10 @@ fn run_conc(t: &[String]) -> String {
     }
     x => panic!("bad scenario {x}"),
   }
-  match early {
-    Some(b) => format!("{} | early {}", e.summary(), b as u8),
-    None => e.summary(),
+  match (early, probe_state) {
+    (Some(b), _) => format!("{} | early {}", e.summary(), b as u8),
+    (_, Some(p)) => format!("{} | probe {}", e.summary(), p),
+    _ => e.summary(),
   }
 }
 
